@@ -241,6 +241,13 @@ class LocalStorageBackend(StorageBackend):
         logger.debug(f"Writing file: {path} ({len(content)} bytes)")
 
         full_path = self._resolve_path(path)
+        if full_path == self._real_base_path():
+            # '', '.', 'data/..' resolve to the table root ITSELF. Its dirname is
+            # the PARENT of the root: the temp file of the atomic write would be
+            # created (and the rename attempted) outside the table.
+            raise ValueError(
+                f"Security Error: '{path}' names the table root itself, not a file inside it"
+            )
         dir_path = os.path.dirname(full_path)
         os.makedirs(dir_path, exist_ok=True)
 
